@@ -1383,7 +1383,6 @@ func c08DeclaredCount(r *Run, p *packages.Package, e ast.Expr, depth int) bool {
 	return all && n > 0
 }
 
-
 // c08FollowsInterfaceParents: reading GetExtends() inside some loop or recursion is not yet following it —
 // a walk along the *class* chain that looks one level into each interface's parents is repeated but
 // shallow. Following means the names GetExtends() hands out are themselves expanded: (a) the loop over a
